@@ -538,23 +538,74 @@ def _rejection_type_preserved(prog, chk, Y8, cg):
 
 
 def _variant(prog, chk, Y2, f):
-    conds = [n for n in walk(f.body) if n.get('kind') == 'ConditionalOperator'
-             and 'engine_schema' in (n.get('type') or '')]
-    if len(conds) != 1:
-        raise AnalysisBroken('detect_schema: expected exactly one variant selection, found %d' % len(conds))
-    co = conds[0]
-    c = children(co)
-    cond = strip(c[0])
-    on_true = strip(c[1])
-    on_false = strip(c[2])
-    tn = (on_true.get('referencedDecl') or {}).get('name')
-    fn = (on_false.get('referencedDecl') or {}).get('name')
-    # the condition variable's initialiser
-    init = cond
-    if cond.get('kind') == 'DeclRefExpr':
-        d = f.tu.ids.get((cond.get('referencedDecl') or {}).get('id'))
-        ch = [x for x in children(d)] if d else []
-        init = ch[-1] if ch else cond
+    """The 1.18.0 branch chooses between the two enumerators of that triple by a marker test: either
+    `marker ? A : B` or `if (marker) return A; [else] return B;`, the marker possibly held in a named flag or
+    negated."""
+    def resolve(n, depth=0):
+        n = strip(n)
+        neg = False
+        while n.get('kind') == 'UnaryOperator' and n.get('opcode') == '!':
+            neg = not neg
+            n = strip(children(n)[0])
+        if n.get('kind') == 'DeclRefExpr' and depth < 3:
+            d = f.tu.ids.get((n.get('referencedDecl') or {}).get('id'))
+            ch = [x for x in children(d) if not x['kind'].endswith('Attr')] if d and d.get('kind') == 'VarDecl' else []
+            if ch:
+                r, ng = resolve(ch[-1], depth + 1)
+                return r, (ng != neg)
+        return n, neg
+
+    def enum_of(n):
+        for x in walk(n):
+            if x.get('kind') == 'DeclRefExpr' and (x.get('referencedDecl') or {}).get('kind') == 'EnumConstantDecl':
+                return x['referencedDecl']['name']
+        return None
+
+    def is_marker(n):
+        for x in walk(n):
+            if x.get('kind') == 'CallExpr':
+                d, q, _, _ = prog.resolve_callee(f.tu, x)
+                if q and q.endswith('get_column_type'):
+                    return True
+        return False
+
+    found = []
+    for n in walk(f.body):
+        if n.get('kind') == 'ConditionalOperator' and 'engine_schema' in (n.get('type') or ''):
+            c = children(n)
+            e, neg = resolve(c[0])
+            if is_marker(e):
+                found.append((n, e, neg, enum_of(c[1]), enum_of(c[2])))
+        elif n.get('kind') == 'IfStmt':
+            c = children(n)
+            e, neg = resolve(c[0])
+            if not is_marker(e):
+                continue
+            then_ret = [x for x in walk(c[1]) if x.get('kind') == 'ReturnStmt']
+            if not then_ret:
+                continue
+            a_ = enum_of(then_ret[0])
+            b_ = None
+            if n.get('hasElse') and len(c) > 2:
+                er = [x for x in walk(c[2]) if x.get('kind') == 'ReturnStmt']
+                b_ = enum_of(er[0]) if er else None
+            else:
+                # the return that follows the if in the enclosing statement list
+                for par in walk(f.body):
+                    ch = children(par)
+                    if n in ch:
+                        for later in ch[ch.index(n) + 1:]:
+                            er = [x for x in walk(later) if x.get('kind') == 'ReturnStmt']
+                            if er:
+                                b_ = enum_of(er[0])
+                                break
+            found.append((n, e, neg, a_, b_))
+    if len(found) != 1 or not found[0][3] or not found[0][4]:
+        raise AnalysisBroken('detect_schema: expected exactly one variant selection on a get_column_type marker, '
+                             'found %d' % len(found))
+    co, init, neg, tn, fn = found[0]
+    if neg:
+        tn, fn = fn, tn
     strs = [decode_string_literal(x['value']) for x in walk(init) if x.get('kind') == 'StringLiteral']
     calls = [x for x in walk(init) if x.get('kind') == 'CallExpr']
     gq = None
